@@ -276,14 +276,15 @@ Definition count_nontrivial (cases : list slice_case) : nat :=
 Definition count_queries (cases : list slice_case) : nat :=
   fold_right (fun c n => length (snd c) + n) 0 cases.
 
-(* py_slice / del_slice against real Python slicing *)
-Definition pyslice_case := (list nat * option Z * option Z * Z * list nat)%type.
+(* py_slice / del_slice against real Python slicing: a list, a start, and for every stop the
+   results of l[start:stop:step] for several steps and of `del l[start:stop]` *)
+Definition pyslice_row := (option Z * list (Z * list nat) * list nat)%type.
+Definition pyslice_case := (list nat * option Z * list pyslice_row)%type.
+Definition pyslice_row_ok (l : list nat) (a : option Z) (r : pyslice_row) : bool :=
+  let '(b, sl, d) := r in
+  forallb (fun x : Z * list nat => list_eqb Nat.eqb (py_slice l a b (fst x)) (snd x)) sl
+  && list_eqb Nat.eqb (del_slice l a b) d.
 Definition pyslice_ok (c : pyslice_case) : bool :=
-  let '(l, a, b, st, r) := c in list_eqb Nat.eqb (py_slice l a b st) r.
+  let '(l, a, rows) := c in forallb (pyslice_row_ok l a) rows.
 Definition pyslice_mismatches (cases : list pyslice_case) : list nat :=
   false_indices 0 (map pyslice_ok cases).
-Definition pydel_case := (list nat * option Z * option Z * list nat)%type.
-Definition pydel_ok (c : pydel_case) : bool :=
-  let '(l, a, b, r) := c in list_eqb Nat.eqb (del_slice l a b) r.
-Definition pydel_mismatches (cases : list pydel_case) : list nat :=
-  false_indices 0 (map pydel_ok cases).
